@@ -12,3 +12,7 @@ import JaxVerif.Properties.C14
 #print axioms JV.C14_illegal_modifier
 #print axioms JV.C14_illegal_two_variadics
 #print axioms JV.C14_concat
+#print axioms JV.C14_source_loop_body
+#print axioms JV.C14_source_parser
+#print axioms JV.C14_source_spec
+#print axioms JV.C14_source_header
